@@ -1,14 +1,16 @@
 #!/bin/bash
-# usage: mutant_wt.sh <worktree with patch.diff> <Cxx> [<Cxx>...]
-# applies <worktree>/patch.diff inside the scratch worktree, runs the quick checks against it
-# (HERMES_REPO=<worktree>; /repo is not touched), and reverts the worktree.
-wt="$1"; shift
+# usage: mutant_wt.sh <scratch worktree of /repo> <patch file> <Cxx> [<Cxx>...]
+# applies the patch inside the scratch worktree, runs the quick checks against it
+# (HERMES_REPO=<worktree>; /repo itself is not touched), and reverts the worktree.
+wt="$1"; patch="$(readlink -f "$2")"; shift; shift
 cd "$wt" || exit 2
 git checkout -q -- . 2>/dev/null
-if ! git apply patch.diff 2>/dev/null; then echo "PATCH-DOES-NOT-APPLY $wt"; exit 3; fi
+if ! git apply "$patch" 2>/dev/null; then
+  if ! git apply -3 "$patch" 2>/dev/null; then echo "PATCH-DOES-NOT-APPLY $patch"; git checkout -q -- .; exit 3; fi
+fi
 for p in "$@"; do
   out=$(cd /verif && HERMES_REPO="$wt" ./check "$p" quick 2>&1); rc=$?
-  echo "== $p rc=$rc: $(echo "$out" | grep -c '^VIOLATION') violation lines; $(echo "$out" | tail -1)"
-  echo "$out" | grep -m3 "^VIOLATION" | cut -c1-400
+  echo "== $(basename $(dirname $patch)) $p rc=$rc: $(echo "$out" | grep -c '^VIOLATION') violation lines; $(echo "$out" | tail -1)"
+  echo "$out" | grep -m2 "^VIOLATION" | cut -c1-300
 done
-git apply -R patch.diff
+git checkout -q -- . ; git reset -q
